@@ -151,6 +151,40 @@ def blocked_queue_history(rng):
     return {'rx': [(r'.*', 'forward')], 'tx': [(r'dtn://a/.*', None), (r'dtn://rpt/.*', None)], 'items': items}
 
 
+def embedded_history(rng):
+    ''' A route pattern applies from the START of the destination (re.match): a destination that merely
+    contains text an earlier route's pattern describes — another EID in its query or path — is routed by the
+    first route that matches it from the start. '''
+    me = rng.choice([(r'dtn://a/.*', '//a/inbox'), (r'dtn://node/.*', '//node/app'), (r'ipn:1\..*', 'ipn:1.2')])
+    inner = me[1] if me[1].startswith('ipn:') else 'dtn:' + me[1]
+    first = rng.choice(['deliver', 'delete'])
+    rx = [(me[0], first), (r'.*', rng.choice(['forward', 'forward', 'deliver' if first == 'delete' else 'forward']))]
+    dests = ['//c/relay?reply-to=' + inner, '//c/x/' + inner, '//ab/x#' + inner, '//b/' + inner + '/tail']
+    items = []
+    now = A.T0 + 10
+    for n in range(rng.choice([1, 2, 3])):
+        b = {'pri': A.mk_pri(A.dtn(rng.choice(dests)), rng.choice(SOURCES), [A.T0 - 9, 70 + n],
+                             flags=rng.choice([0, A.F_DLV | A.F_FWD | A.F_DEL]), rpt=RPT), 'rpt_none': False,
+             'blocks': [A.mk_blk(1, 1, bytes([n, 9]))]}
+        items.append(_item(b, now + 2 * n))
+    return {'rx': rx, 'tx': [(r'.*', None)], 'items': items}
+
+
+def burst_history(rng):
+    ''' Back-to-back arrivals: several bundles routed forward (and others) are received before the main loop
+    goes idle; every one of them is then handed over. '''
+    n = rng.choice([2, 3, 3, 5])
+    items = []
+    now = A.T0 + 10
+    for k in range(n):
+        dest = rng.choice(['//a/x', '//a/x', '//c/x', '//node/app'])
+        b = {'pri': A.mk_pri(A.dtn(dest), rng.choice(SOURCES), [A.T0 - 9, 80 + k],
+                             flags=rng.choice([0, A.F_FWD | A.F_RCV]), rpt=RPT, ct=rng.choice([0, 2])),
+             'rpt_none': False, 'blocks': [A.mk_blk(1, 1, bytes([k, 3, 3]))]}
+        items.append(_item(b, now + k, hold=(k < n - 1)))
+    return {'rx': [(r'dtn://node/.*', 'deliver'), (r'.*', 'forward')], 'tx': [(r'.*', None)], 'items': items}
+
+
 def acme_history(rng):
     ''' A bundle for the node's own administrative endpoint carrying an ACME record nobody expects: the
     administrative handler (receive chain order 30) records 'delete' on a bundle that still carries 'deliver'.
@@ -249,6 +283,18 @@ def monitors(chk, case, items, obs):
                               'numbers the agent assigned to the blocks it added to an EARLIER forwarded bundle '
                               '(the number sticks in a class-level scapy dict), add_block raises, delete/NO_ROUTE'
                               % (idt, clash), case)
+            elif (ndel != want_del or len(fw) != want_fw) and want_fw == 1 and not fw and not ndel \
+                    and not any(o['k'] == 'fwd' for o in main) and any(j.get('hold') for j in items):
+                chk.violation('C10:queued-forward-never-attempted',
+                              'bundle %s routed forward (TX route present) was queued but no idle _do_fwd ever ran for '
+                              'it (burst of back-to-back arrivals: %s)' % (idt, [bool(j.get('hold')) for j in items]),
+                              case)
+            elif (ndel != want_del or len(fw) != want_fw) and dest != A.NODE_TEXT and act != next(
+                    (a for (pt, a) in routes if re.compile(pt).search(dest) is not None), None):
+                chk.violation('C10:route-matched-inside-destination',
+                              'dest %s routes %s: the first route matching from the start says %s, saw deliver=%d '
+                              'forward=%d — the action of a route whose pattern only occurs INSIDE the destination'
+                              % (dest, routes, act, ndel, len(fw)), case)
             elif ndel != want_del or len(fw) != want_fw:
                 chk.violation('C10:first-match-action-not-taken',
                               'dest %s routes %s: expected %s (deliver=%d forward=%d), saw deliver=%d forward=%d'
@@ -313,7 +359,7 @@ def run_case(chk, case):
 def case_json(case):
     return {'rx': case['rx'], 'tx': case['tx'],
             'items': [dict({'b': it['b'], 'data': it['data'].hex(), 'now': it['now'], 'crc_ok': it['crc_ok']},
-                           **{k: it[k] for k in ('add_tx', 'params') if k in it}) for it in case['items']]}
+                           **{k: it[k] for k in ('add_tx', 'params', 'hold') if k in it}) for it in case['items']]}
 
 
 def check_batch(chk, batch):
@@ -343,7 +389,9 @@ def run(chk):
     chk.prove('DtnVerif.Props.C10')
     chk.cov['rule'] = ('directed histories: a failing forward followed by later forwards (a transmit route may '
                        'appear in between); an unexpected ACME record for the own endpoint (the admin handler '
-                       'deletes a bundle that carries deliver); one long history per run (two bundles, ~300 other identities, the two again); '
+                       'deletes a bundle that carries deliver); destinations that embed text matched by an earlier '
+                       'route pattern (routing is anchored at the start); bursts of bundles received back-to-back '
+                       'before any idle source fires; one long history per run (two bundles, ~300 other identities, the two again); '
                        'histories of 1..12 received bundles (fresh / exact repeats / look-alikes differing in one '
                        'identity component / fragments incl. complete sets that reassemble / own-source / bad CRC) '
                        'x random receive tables of 0..4 routes over a 12-pattern regex family; every history is '
@@ -371,11 +419,14 @@ def run(chk):
         fix, events, obs = run_case(chk, case)
         batch.append((case, events, obs, fix.seen()))
         chk.count('long-history')
-    for i in range(12 if chk.tier == 'quick' else 300):
-        case = blocked_queue_history(rng) if i % 2 == 0 else acme_history(rng)
+    directed = [('failed-forward-then-more', blocked_queue_history), ('acme-rejected', acme_history),
+                ('destination-embeds-earlier-pattern', embedded_history), ('burst', burst_history)]
+    for i in range(24 if chk.tier == 'quick' else 600):
+        (name, gen) = directed[i % len(directed)]
+        case = gen(rng)
         fix, events, obs = run_case(chk, case)
         batch.append((case, events, obs, fix.seen()))
-        chk.count('directed:%s' % ('failed-forward-then-more' if i % 2 == 0 else 'acme-rejected'))
+        chk.count('directed:%s' % name)
     for i in range(n_cases):
         n = rng.choice([1, 2, 3, 4, 6, 8, 12]) if i % 7 else 12
         tx = [('.*', None)] if rng.random() < 0.85 else [(r'dtn://a/.*', None), (r'dtn://rpt/.*', None)]
